@@ -97,8 +97,30 @@ fn main() {
                 }
             }
         }
-        for src in args[1..].iter().filter(|a| !a.starts_with('@')) {
-            println!("{}  =>  {}", src, real::eval_with(src, &b).show());
+        // arguments of the form %name=<source> store a program under that name
+        let progs: Vec<(&str, &str)> = args[1..].iter().filter_map(|a| a.strip_prefix('%').and_then(|r| r.split_once('='))).collect();
+        for src in args[1..].iter().filter(|a| !a.starts_with('@') && !a.starts_with('%')) {
+            if progs.is_empty() {
+                println!("{}  =>  {}", src, real::eval_with(src, &b).show());
+            } else {
+                let mut ctx = rscel::CelContext::new();
+                for (n, s) in &progs {
+                    if let Err(e) = ctx.add_program_str(n, s) {
+                        println!("program {} does not compile: {}", n, e);
+                    }
+                }
+                if std::env::var("VERIF_EVAL_BYTECODE").is_ok() {
+                    for (n, _) in &progs {
+                        println!("  {} := {:?}", n, ctx.get_program(n).map(|p| format!("{:?}", p.bytecode())));
+                    }
+                }
+                let t0 = std::time::Instant::now();
+                let out = match ctx.add_program_str("main", src) {
+                    Ok(()) => real::exec_in(&mut ctx, "main", &b).show(),
+                    Err(e) => format!("does not compile: {}", e),
+                };
+                println!("{}  =>  {}  ({:.2}s)", src, out, t0.elapsed().as_secs_f64());
+            }
         }
         return;
     }
